@@ -84,6 +84,8 @@ var DefaultExportResourceOptions = ExportResourceOptions{
 
 func (rb *ResourceListBuilder) ExportResources(opts ExportResourceOptions) iter.Seq[Resource] {
 	return func(yield func(Resource) bool) {
+		inlined := map[rdf.BlankNodeIdentifier]bool{}
+
 		for subject := range rb.resourceBySubject {
 			if opts.Inline {
 				if bn, ok := subject.(rdf.BlankNode); ok && rb.blankNodeReferences[bn.Identifier] == 1 {
@@ -91,15 +93,28 @@ func (rb *ResourceListBuilder) ExportResources(opts ExportResourceOptions) iter.
 				}
 			}
 
-			if !yield(rb.ExportResource(subject, opts)) {
+			if !yield(rb.exportResource(subject, opts, inlined)) {
 				return
+			}
+		}
+
+		// A blank node referenced once which was not inlined above is only referenced from a cycle of such blank nodes.
+		for subject := range rb.resourceBySubject {
+			if bn, ok := subject.(rdf.BlankNode); ok && opts.Inline && rb.blankNodeReferences[bn.Identifier] == 1 && !inlined[bn.Identifier] {
+				if !yield(rb.exportResource(subject, opts, inlined)) {
+					return
+				}
 			}
 		}
 	}
 }
 
 func (rb *ResourceListBuilder) ExportResource(s rdf.SubjectValue, opts ExportResourceOptions) Resource {
-	statements := rb.ExportResourceStatements(s, opts)
+	return rb.exportResource(s, opts, map[rdf.BlankNodeIdentifier]bool{})
+}
+
+func (rb *ResourceListBuilder) exportResource(s rdf.SubjectValue, opts ExportResourceOptions, inlined map[rdf.BlankNodeIdentifier]bool) Resource {
+	statements := rb.exportResourceStatements(s, opts, inlined)
 
 	if opts.UseAnonResource {
 		if sBlankNode, ok := s.(rdf.BlankNode); ok && rb.GetBlankNodeReferences(sBlankNode) == 0 {
@@ -116,15 +131,25 @@ func (rb *ResourceListBuilder) ExportResource(s rdf.SubjectValue, opts ExportRes
 }
 
 func (rb *ResourceListBuilder) ExportResourceStatements(subject rdf.SubjectValue, opts ExportResourceOptions) StatementList {
+	return rb.exportResourceStatements(subject, opts, map[rdf.BlankNodeIdentifier]bool{})
+}
+
+// exportResourceStatements records the blank nodes it describes in inlined and never inlines one of them again, so
+// that a cycle of blank nodes which are each referenced once ends in a plain reference instead of recursing.
+func (rb *ResourceListBuilder) exportResourceStatements(subject rdf.SubjectValue, opts ExportResourceOptions, inlined map[rdf.BlankNodeIdentifier]bool) StatementList {
 	var statements StatementList
+
+	if bn, ok := subject.(rdf.BlankNode); ok {
+		inlined[bn.Identifier] = true
+	}
 
 	for _, statement := range rb.resourceBySubject[subject] {
 		if opts.Inline {
-			if bn, ok := statement.Object.(rdf.BlankNode); ok && rb.blankNodeReferences[bn.Identifier] == 1 {
+			if bn, ok := statement.Object.(rdf.BlankNode); ok && rb.blankNodeReferences[bn.Identifier] == 1 && !inlined[bn.Identifier] {
 				statements = append(statements, AnonResourceStatement{
 					Predicate: statement.Predicate,
 					AnonResource: AnonResource{
-						Statements: rb.ExportResourceStatements(bn, opts),
+						Statements: rb.exportResourceStatements(bn, opts, inlined),
 					},
 				})
 
